@@ -30,7 +30,7 @@ fn main() {
                 "link" => eng_link::gen(thorough, seed, &mut out),
                 "transport" => eng_transport::gen_transport(thorough, seed, &mut out),
                 "linkaddr" => eng_transport::gen_linkaddr(thorough, seed, &mut out),
-                "outstation" => gen_outstation::gen(thorough, seed, &mut out),
+                "outstation" => gen_outstation::gen(thorough, seed, &mut out, gen_outstation::GenCfg { with_db: false }),
                 _ => {
                     eprintln!("unknown engine {engine}");
                     std::process::exit(2)
